@@ -1,5 +1,6 @@
 """C20 — rendering draws every node, port and link exactly once
 (model: coq/model/Render.v, spec: coq/spec/RenderS.v, proofs: coq/proofs/RenderP.v)."""
+import html
 import json
 import random
 import re
@@ -27,123 +28,289 @@ gs = gs_plain
 
 
 # ----------------------------------------------------------------------------- DOT text -> abstract tree
+# A tokenising parser of the DOT language subset the graphviz package can emit for this renderer, and of the
+# HTML-like node labels.  What it is insensitive to (none of it is promised by the property, all of it is invisible
+# in the drawing): whitespace and line breaks between tokens and between the elements of a label, `;`/`,`
+# separators, quoting style of identifiers and of attribute values, order of attributes in an attribute list or a tag,
+# attributes the abstract tree does not hold, order of the statements inside a graph or cluster body (kept as
+# found: Coq compares sibling statements and edges as multisets).  It fails closed (ParseError) on anything
+# structurally unexpected: default-attribute statements for nodes/edges, edges inside clusters, subgraphs that are
+# not clusters, a cluster without its own node statement, node labels that are not one HTML table, text outside the
+# name and port cells, unbalanced tags, trailing text.
 
-NODE_START = re.compile(r"^\t+(\d+) \[label=<$")
-NODE_END = re.compile(r"^\s*> shape=plain\]$")
-SUB_START = re.compile(r"^\t+subgraph cluster(\d+) \{$")
-SUB_ATTR = re.compile(r'^\t+color=("[^"]*"|\S+) label="" margin=10$')
-CLOSE = re.compile(r"^\t*\}$")
-GRAPH_ATTR = re.compile(r'^\tbgcolor=("[^"]*"|\S+) margin=0 nodesep=0.15 rankdir="" ranksep=0.1$')
-EDGE = re.compile(r'^\t(\d+):"?out\.(-?\d+)"? -> (\d+):"?in\.(-?\d+)"? \[label=(.*) arrowhead=none arrowsize=1\.0 '
-                  r'color=("[^"]*"|\S+) fontcolor=black fontname=monospace fontsize=9 penwidth=1\.5\]$')
-TABLE = re.compile(r'<TABLE BORDER="1" CELLBORDER="0" CELLSPACING="1" CELLPADDING="1"\s+BGCOLOR="([^"]*)" COLOR="([^"]*)">')
-NAME = re.compile(r"<B>(.*?)</B>(.*?)</FONT></TD></TR>", re.S)
-CELL = re.compile(r'PORT="(in|out)\.(-?\d+)" BORDER="1"><FONT POINT-SIZE="10\.0" FACE="monospace" COLOR="[^"]*">(.*?)</FONT></TD>', re.S)
+_WS = re.compile(r'(?:\s+|//[^\n]*|/\*.*?\*/|^#[^\n]*)*', re.S | re.M)
+_IDENT = re.compile(r'[A-Za-z_\u0080-\uffff][A-Za-z0-9_\u0080-\uffff]*')
+_NUMERAL = re.compile(r'-?(?:\.\d+|\d+(?:\.\d*)?)')
+_QUOTED = re.compile(r'"((?:[^"\\]|\\.)*)"', re.S)
+_PORTID = re.compile(r'(in|out)\.(-?\d+|None)$')
+_TAGNAMES = "TABLE|TR|TD|FONT|BR|B|I|U|O|SUB|SUP|S|IMG|HR|VR"
+_TAG = re.compile(r'<(/?)(' + _TAGNAMES + r')((?:\s+[A-Za-z_:][-A-Za-z0-9_:.]*\s*=\s*(?:"[^"]*"|\'[^\']*\'))*)\s*(/?)>', re.I)
+_ATTR = re.compile(r'([A-Za-z_:][-A-Za-z0-9_:.]*)\s*=\s*(?:"([^"]*)"|\'([^\']*)\')')
+_VOID = {"BR", "IMG", "HR", "VR"}
 
 
 def unq(s):
-    if len(s) >= 2 and s[0] == '"' and s[-1] == '"':
-        return s[1:-1].replace('\\"', '"')
-    return s
+    return s.replace('\\"', '"')
+
+
+class _Dot:
+    def __init__(self, src):
+        self.s = src
+        self.i = 0
+
+    def ws(self):
+        self.i = _WS.match(self.s, self.i).end()
+
+    def peek(self, lit):
+        self.ws()
+        return self.s.startswith(lit, self.i)
+
+    def take(self, lit):
+        if self.peek(lit):
+            self.i += len(lit)
+            return True
+        return False
+
+    def expect(self, lit):
+        if not self.take(lit):
+            raise ParseError("expected %r at: %s" % (lit, self.s[self.i:self.i + 60]))
+
+    def ident(self):
+        """an ID of the DOT language: ("id"|"num"|"str"|"html", value)"""
+        self.ws()
+        s, i = self.s, self.i
+        if i >= len(s):
+            raise ParseError("unexpected end of text")
+        if s[i] == '"':
+            m = _QUOTED.match(s, i)
+            if not m:
+                raise ParseError("unterminated string")
+            self.i = m.end()
+            return ("str", unq(m.group(1)))
+        if s[i] == "<":
+            return ("html", self.html())
+        m = _NUMERAL.match(s, i)
+        if m:
+            self.i = m.end()
+            return ("num", m.group(0))
+        m = _IDENT.match(s, i)
+        if m:
+            self.i = m.end()
+            return ("id", m.group(0))
+        raise ParseError("identifier expected at: " + s[i:i + 60])
+
+    def html(self):
+        """an HTML-like label <...>: one TABLE element.  The label may hold arbitrary unescaped text (names,
+        metadata), so its end is found by following the known tags: it ends after the </TABLE> that closes the
+        first <TABLE>; every `<` that does not begin a well-formed known tag is text"""
+        s = self.s
+        start = self.i + 1
+        stack, root, pos = [], None, start
+        for m in _TAG.finditer(s, start):
+            close, name, attrs, selfclose = m.group(1), m.group(2).upper(), m.group(3), m.group(4)
+            text = s[pos:m.start()]
+            pos = m.end()
+            if not stack:
+                if text.strip() or close or name != "TABLE":
+                    raise ParseError("node label is not one HTML table")
+            elif text:
+                stack[-1]["ch"].append(text)
+            if close:
+                if stack[-1]["tag"] != name:
+                    raise ParseError("unbalanced tag </%s> in <%s>" % (name, stack[-1]["tag"]))
+                el = stack.pop()
+                el["close"] = (m.start(), m.end())
+                if not stack:
+                    root = el
+                    break
+                continue
+            el = {"tag": name, "ch": [], "open": (m.start(), m.end()), "close": (m.end(), m.end()),
+                  "attrs": {a.group(1).upper(): (a.group(2) if a.group(2) is not None else a.group(3))
+                            for a in _ATTR.finditer(attrs)}}
+            if stack:
+                stack[-1]["ch"].append(el)
+            if selfclose or name in _VOID:
+                if not stack:
+                    raise ParseError("node label is not one HTML table")
+                continue
+            stack.append(el)
+        if root is None:
+            raise ParseError("unterminated HTML label")
+        self.i = root["close"][1]
+        self.expect(">")
+        return root
+
+    def attr_list(self):
+        """zero or more [ a=b c=d, e=f; ... ] -> dict (a later assignment wins, as in DOT)"""
+        d = {}
+        while self.take("["):
+            while not self.take("]"):
+                k = self.ident()
+                if k[0] == "html":
+                    raise ParseError("attribute name expected")
+                self.expect("=")
+                d[k[1]] = self.ident()
+                if not self.take(","):
+                    self.take(";")
+        return d
+
+
+def _plain(v, what):
+    if v is None:
+        return ""
+    if v[0] == "html":
+        raise ParseError(what + ": HTML value not expected")
+    return v[1]
+
+
+def _node_index(v):
+    if v[0] == "html" or not re.fullmatch(r"-?\d+", v[1]):
+        raise ParseError("node statement name is not a node index: %r" % (v[1] if v[0] != "html" else "<html>"))
+    return int(v[1])
 
 
 def parse_dot(src: str):
     """-> {"bg": colour, "top": node, "edges": [...]}; node = {"stmt": {...}, "cluster": None | {"id", "body": [...], "color"}}"""
-    lines = src.split("\n")
-    if not re.match(r"^digraph .*\{$|^digraph \{$", lines[0]):
-        raise ParseError("header: " + lines[0][:60])
-    i = 1
-    bg = None
-    stack = [{"items": []}]       # top-level pseudo cluster
+    p = _Dot(src)
+    p.ws()
+    kw = p.ident()
+    if kw != ("id", "digraph"):
+        raise ParseError("header: " + src[:60])
+    if not p.peek("{"):
+        p.ident()                                   # the graph's name
+    p.expect("{")
     edges = []
-    n = len(lines)
-    while i < n:
-        ln = lines[i]
-        m = GRAPH_ATTR.match(ln)
-        if m and len(stack) == 1 and bg is None:
-            bg = unq(m.group(1))
-            i += 1
-            continue
-        m = SUB_START.match(ln)
-        if m:
-            stack.append({"id": int(m.group(1)), "items": [], "color": None})
-            i += 1
-            continue
-        m = NODE_START.match(ln)
-        if m:
-            j = i + 1
-            while j < n and not NODE_END.match(lines[j]):
-                j += 1
-            if j >= n:
-                raise ParseError("unterminated node statement")
-            body = "\n".join(lines[i + 1:j])
-            stack[-1]["items"].append(("stmt", parse_stmt(int(m.group(1)), body)))
-            i = j + 1
-            continue
-        m = SUB_ATTR.match(ln)
-        if m and len(stack) > 1:
-            stack[-1]["color"] = unq(m.group(1))
-            i += 1
-            continue
-        if CLOSE.match(ln):
-            if len(stack) > 1:
-                c = stack.pop()
-                stack[-1]["items"].append(("cluster", c))
-            else:
-                if any(x.strip() for x in lines[i + 1:]):
-                    raise ParseError("text after the closing brace")
-                break
-            i += 1
-            continue
-        m = EDGE.match(ln)
-        if m and len(stack) == 1:
-            edges.append({"src": int(m.group(1)), "sport": int(m.group(2)), "dst": int(m.group(3)),
-                          "dport": int(m.group(4)), "label": unq(m.group(5)), "color": unq(m.group(6))})
-            i += 1
-            continue
-        if ln.strip() == "":
-            i += 1
-            continue
-        raise ParseError("unexpected line: " + ln[:120])
-    if len(stack) != 1:
-        raise ParseError("unbalanced braces")
+
+    def body(depth, cluster_id):
+        items, attrs = [], {}
+        while not p.take("}"):
+            if p.take(";"):
+                continue
+            a = p.ident()
+            if a == ("id", "subgraph"):
+                name = p.ident()
+                m = re.fullmatch(r"cluster(\d+)", name[1]) if name[0] in ("id", "str") else None
+                if not m:
+                    raise ParseError("subgraph that is not a cluster<index>")
+                p.expect("{")
+                items.append(("cluster", int(m.group(1)), body(depth + 1, int(m.group(1)))))
+                continue
+            if a[0] == "id" and a[1].lower() in ("node", "edge", "strict", "digraph", "graph") and p.peek("["):
+                if a[1].lower() != "graph":
+                    raise ParseError("default attribute statement for %ss" % a[1])
+                attrs.update(p.attr_list())
+                continue
+            if p.take("="):                          # graph / cluster attribute
+                if a[0] == "html":
+                    raise ParseError("attribute name expected")
+                attrs[a[1]] = p.ident()
+                continue
+            port = None
+            if p.take(":"):
+                port = p.ident()
+                if p.peek(":"):
+                    raise ParseError("compass point on an edge end")
+            if p.take("->"):
+                b = p.ident()
+                p.expect(":")
+                bport = p.ident()
+                if p.peek("->") or p.peek(":"):
+                    raise ParseError("edge chain / compass point")
+                at = p.attr_list()
+                if depth > 0:
+                    raise ParseError("edge statement inside a cluster")
+                ms = _PORTID.match(_plain(port, "edge source port")) if port else None
+                mt = _PORTID.match(_plain(bport, "edge target port"))
+                if not ms or not mt or ms.group(1) != "out" or mt.group(1) != "in" or "None" in (ms.group(2), mt.group(2)):
+                    raise ParseError("edge ends are not <node>:out.<offset> -> <node>:in.<offset>")
+                edges.append({"src": _node_index(a), "sport": int(ms.group(2)), "dst": _node_index(b),
+                              "dport": int(mt.group(2)), "label": _plain(at.get("label"), "edge label"),
+                              "color": _plain(at.get("color"), "edge colour")})
+                continue
+            if port is not None or p.peek("--"):
+                raise ParseError("unexpected statement at: " + p.s[p.i:p.i + 60])
+            at = p.attr_list()                      # a node statement
+            lab = at.get("label")
+            if lab is None or lab[0] != "html":
+                raise ParseError("node statement without an HTML label")
+            idx = _node_index(a)
+            items.append(("stmt", idx, parse_stmt(idx, lab[1], p.s)))
+        return {"items": items, "attrs": attrs}
+
+    top = body(0, None)
+    p.ws()
+    if p.i != len(src):
+        raise ParseError("text after the closing brace")
 
     def conv(item):
-        kind, x = item
-        if kind == "stmt":
-            return {"stmt": x, "cluster": None}
-        # a cluster: its items are child nodes (stmts or clusters) and, last, the cluster's own statement
-        items = x["items"]
-        if not items or items[-1][0] != "stmt":
-            raise ParseError("cluster without its own node statement last")
-        own = items[-1][1]
-        return {"stmt": own, "cluster": {"id": x["id"], "body": [conv(y) for y in items[:-1]], "color": x["color"]}}
+        if item[0] == "stmt":
+            return {"stmt": item[2], "cluster": None}
+        _, cid, c = item
+        own = [x for x in c["items"] if x[0] == "stmt" and x[1] == cid]
+        if len(own) != 1:
+            raise ParseError("cluster%d holds %d node statements of its own node" % (cid, len(own)))
+        rest = [x for x in c["items"] if x is not own[0]]
+        return {"stmt": own[0][2], "cluster": {"id": cid, "body": [conv(y) for y in rest],
+                                               "color": _plain(c["attrs"].get("color"), "cluster colour")}}
 
-    tops = stack[0]["items"]
+    tops = top["items"]
     if len(tops) != 1:
         raise ParseError("expected exactly one top-level node/cluster, got %d" % len(tops))
-    return {"bg": bg, "top": conv(tops[0]), "edges": edges}
+    return {"bg": _plain(top["attrs"].get("bgcolor"), "bgcolor"), "top": conv(tops[0]), "edges": edges}
 
 
-def parse_stmt(idx, body):
-    t = TABLE.search(body)
-    nm = NAME.search(body)
-    if not t or not nm:
-        raise ParseError("node statement %d: table/name not found" % idx)
+def parse_stmt(idx, table, src):
+    """the HTML table of a node statement -> colours, name, data, cells.  Free text is allowed in two places only:
+    inside the FONT element that holds the <B>name</B> (name = source text of the B element, data = source text
+    from </B> to </FONT>, both verbatim), and inside the cells that carry a PORT attribute"""
+    at = table["attrs"]
+    if "BGCOLOR" not in at or "COLOR" not in at:
+        raise ParseError("node statement %d: table without BGCOLOR/COLOR" % idx)
     ins, outs = [], []
-    for d, k, txt in CELL.findall(body):
-        v = int(k) if txt == k else -999          # the cell text must show the offset
-        (ins if d == "in" else outs).append(v)
-    if body.count("PORT=") != len(ins) + len(outs):
-        raise ParseError("node statement %d: unparsed port cells" % idx)
-    # input cells come before the name, output cells after it
-    pos_name = nm.start()
-    for mm in re.finditer(r'PORT="(in|out)\.', body):
-        if (mm.group(1) == "in") != (mm.start() < pos_name):
-            ins.append(-998)
-            break
-    return {"id": idx, "label": nm.group(1), "data": nm.group(2), "ins": ins, "outs": outs,
-            "back": t.group(1), "border": t.group(2)}
+
+    def text_of(el):
+        return "".join(c if isinstance(c, str) else text_of(c) for c in el["ch"])
+
+    def walk(el, parent):
+        if el["tag"] == "TD" and "PORT" in el["attrs"]:
+            m = _PORTID.match(el["attrs"]["PORT"])
+            if not m or m.group(2) == "None":
+                raise ParseError("node statement %d: PORT=%r" % (idx, el["attrs"]["PORT"][:40]))
+            k = m.group(2)
+            v = int(k) if html.unescape(text_of(el)).strip() == k else -999          # the cell text must show the offset
+            (ins if m.group(1) == "in" else outs).append((el["open"][0], v))
+            return
+        for c in el["ch"]:
+            if isinstance(c, str):
+                if c.strip():
+                    raise ParseError("node statement %d: text outside the name and port cells" % idx)
+            else:
+                walk(c, el)
+    # the FONT element that holds the name may hold text after it: find the name first
+    def find_b(el, parent, acc):
+        for c in el["ch"]:
+            if not isinstance(c, str):
+                if c["tag"] == "B":
+                    acc.append((c, el))
+                elif not (c["tag"] == "TD" and "PORT" in c["attrs"]):
+                    find_b(c, el, acc)
+        return acc
+    bs = find_b(table, None, [])
+    if len(bs) != 1 or bs[0][1]["tag"] != "FONT":
+        raise ParseError("node statement %d: expected exactly one <B>name</B> inside a FONT element" % idx)
+    b, font = bs[0]
+    k = next(i for i, c in enumerate(font["ch"]) if c is b)
+    if any((c.strip() if isinstance(c, str) else True) for c in font["ch"][:k]):
+        raise ParseError("node statement %d: text before the name" % idx)
+    # character references (a renderer that escapes names: &lt; for <) stand for the characters they display as
+    label = html.unescape(src[b["open"][1]:b["close"][0]])
+    data = html.unescape(src[b["close"][1]:font["close"][0]])
+    font["ch"] = []                                   # judged; everything else must be structure or port cells
+    walk(table, None)
+    # the property promises one cell per input and per output port, not where the cells stand: the offsets of each
+    # direction are handed over as a sorted multiset (a missing or repeated cell still shows against 0..n-1)
+    return {"id": idx, "label": label, "data": data, "ins": sorted(v for _, v in ins), "outs": sorted(v for _, v in outs),
+            "back": at["BGCOLOR"], "border": at["COLOR"]}
 
 
 # ----------------------------------------------------------------------------- the property
@@ -185,6 +352,26 @@ def hugr_view(h):
     return {"tree": tree(h.root), "nodes": [n.idx for n in h], "links": links}
 
 
+def sizes_of(view):
+    """largest port count, child count, depth, links on one port, name length of a HUGR view (iterative: deep trees)"""
+    sz = {"ports": 0, "children": 0, "depth": 0, "fan": 0, "name": 0}
+    todo = [(view["tree"], 1)]
+    while todo:
+        t, dep = todo.pop()
+        i = t["info"]
+        sz["ports"] = max(sz["ports"], i["nin"], i["nout"])
+        sz["children"] = max(sz["children"], len(t["ch"]))
+        sz["depth"] = max(sz["depth"], dep)
+        sz["name"] = max(sz["name"], len(i["nq"]))
+        todo.extend((c, dep + 1) for c in t["ch"])
+    per = {}
+    for l in view["links"]:
+        for key in ((0, l[0], l[1]), (1, l[2], l[3])):
+            per[key] = per.get(key, 0) + 1
+    sz["fan"] = max(per.values(), default=0)
+    return sz
+
+
 class C20(fw.Prop):
     id = "C20"
     props_file = "props/C20.v"
@@ -204,10 +391,17 @@ class C20(fw.Prop):
             "class-per-definition ones (RegisteredOp, std Not/DivMod/Noop) in nested DFGs and conditionals; in 40-50% of "
             "the cases the non-default configurations are drawn by a DotRenderer object that has drawn another HUGR "
             "before and draws the HUGR twice.  "
+            "a third stream (10 quick / 60 thorough, plus 8 corpus entries) sits on size boundaries: nodes with 15..257 "
+            "input or output ports (Input, Output, MakeTuple, UnpackTuple, DFG, Custom, Conditional, Case, Call, "
+            "FuncDefn, Tag, DataflowBlock successors), containers with up to 1100 children, one port carrying up to "
+            "~130 links, nesting up to 66 deep, operation names / metadata keys and values / type labels of "
+            "hundreds of characters.  "
             "non-trivial = the HUGR has a nested container (cluster inside a cluster) and at least one "
-            "non-value link (order/const/function/control-flow)")
-    trusted = ["harness/props/c20.py: line-oriented parser of the DOT text the graphviz package emits "
-               "(fails closed on any unexpected line); display names and metadata strings are read from the "
+            "non-value link (order/const/function/control-flow), or it has a node with more than 16 ports in one "
+            "direction, more than 16 children, or nesting deeper than 16")
+    trusted = ["harness/props/c20.py: tokenising parser of the DOT text the graphviz package emits and of the HTML-like "
+               "node labels (insensitive to whitespace, quoting style, attribute and statement order; fails closed on "
+               "unexpected structure); display names and metadata strings are read from the "
                "HUGR through op.name()/op_def().name/str(value) as render.py does",
                "the graphviz Python package (DOT text emission) is outside the model"]
     assumptions = ["hierarchy reached from the root covers the HUGR's nodes (checked per case by the monitor)"]
@@ -236,6 +430,13 @@ class C20(fw.Prop):
             cases.append({"ext": r2.randrange(1 << 30), "reload": False, "resolve": False,
                           "shared": r2.random() < 0.5,
                           "cfgs": [0] + r2.sample(range(1, 6), 2 if tier == "quick" else 3)})
+        # seeded round 3: size boundaries (nodes with 17..257 ports, many children, many links on one port, deep
+        # nesting, long names and metadata); a third generator, so that the two streams above stay what they were
+        r3 = random.Random(r2.randrange(1 << 30))
+        for i in range(10 if tier == "quick" else 60):
+            cases.append({"big": r3.randrange(1 << 30), "heavy": tier != "quick", "reload": r3.random() < 0.2,
+                          "resolve": False, "shared": r3.random() < 0.3,
+                          "cfgs": [0] + r3.sample(range(1, 6), 1 if tier == "quick" else 2)})
         return cases
 
     def corpus(self, ctx):
@@ -252,6 +453,16 @@ class C20(fw.Prop):
             {"prog": "extops_per_instance_class", "reload": False, "cfgs": [0, 5]},   # one AsExtOp class, two definitions
             {"prog": "extops_instantiate", "reload": True, "resolve": True, "cfgs": [0, 2]},   # load_json + resolve_extensions
             {"prog": "extop_single", "reload": False, "shared": True, "cfgs": [0, 2, 1]},   # a renderer that drew another HUGR before
+            # seeded round 3 (C20-f): one cell per port also for nodes with more than 16 ports, one statement per child
+            # and one edge per link however many there are
+            {"bigprog": {"form": "tuple", "w": 17, "tys": "B", "rot": 0}, "reload": False, "cfgs": [0, 1]},   # the demo of C20-f
+            {"bigprog": {"form": "custom", "w": 33, "w2": 18, "tys": "BQ"}, "reload": False, "cfgs": [0, 4]},
+            {"bigprog": {"form": "call", "w": 17, "w2": 17, "tys": "BU"}, "reload": True, "cfgs": [0]},
+            {"bigprog": {"form": "tag", "w": 101, "tys": "BQ"}, "reload": False, "cfgs": [0]},      # offsets of three digits
+            {"bigprog": {"form": "cfg", "n": 17}, "reload": False, "cfgs": [0, 3]},              # 17 control-flow ports, 17 links into one port
+            {"bigprog": {"form": "children", "n": 130, "fan": True}, "reload": False, "shared": True, "cfgs": [0, 2]},
+            {"bigprog": {"form": "deep", "d": 33}, "reload": False, "cfgs": [0, 5]},
+            {"bigprog": {"form": "names", "L": 257, "K": 17, "V": 300}, "reload": False, "cfgs": [0, 1]},
         ]
 
     def build(self, case):
@@ -260,6 +471,9 @@ class C20(fw.Prop):
         if "ext" in case or "extprog" in case:
             p = case.get("extprog") or gen_ext_program(random.Random(case["ext"]))
             return run_ext_program(p), p
+        if "big" in case or "bigprog" in case:
+            p = case.get("bigprog") or gen_big_program(random.Random(case["big"]), case.get("heavy", False))
+            return run_big_program(p), p
         p = progs.gen_program(random.Random(case["seed"]), case.get("root"))
         h = progs.run(p).hugr
         if case.get("mutate"):
@@ -385,7 +599,10 @@ class C20(fw.Prop):
 
         def depth(t):
             return 1 + max([depth(c) for c in t["ch"]], default=0)
-        return depth(v["tree"]) >= 3 and any(l[4][0] != "value" for l in v["links"])
+        if depth(v["tree"]) >= 3 and any(l[4][0] != "value" for l in v["links"]):
+            return True
+        sz = sizes_of(v)
+        return sz["ports"] > 16 or sz["children"] > 16 or sz["depth"] > 16
 
     def describe(self, case, obs):
         o = dict(obs)
@@ -412,6 +629,11 @@ class C20(fw.Prop):
             rest = {k: v for k, v in case.items() if k != "ext"}
             for q in shrink_ext_program(p):
                 yield {**rest, "extprog": q}
+        if "big" in case or "bigprog" in case:
+            p = case.get("bigprog") or gen_big_program(random.Random(case["big"]), case.get("heavy", False))
+            rest = {k: v for k, v in case.items() if k not in ("big", "heavy")}
+            for q in shrink_big_program(p):
+                yield {**rest, "bigprog": q}
         if len(case.get("cfgs", [])) > 1:
             for c in case["cfgs"]:
                 yield {**case, "cfgs": [c]}
@@ -423,13 +645,20 @@ class C20(fw.Prop):
         if "ext" in case:
             for k in range(30):
                 yield {**case, "ext": case["ext"] + 1 + k, "cfgs": list(range(6))}
+        if "big" in case:
+            for k in range(30):
+                yield {**case, "big": case["big"] + 1 + k}
 
     def distribution(self, cases, observations):
         d = {"reloaded": 0, "mutated": sum(1 for c in cases if c.get("mutate")), "nodes": [], "links_by_kind": {}, "render_errors": 0, "stmt_kinds": {},
              "resolved_extensions": sum(1 for c in cases if c.get("resolve")),
              "reused_renderer": sum(1 for c in cases if c.get("shared")),
              "extension_op_programs": sum(1 for c in cases if "ext" in c or "extprog" in c),
-             "hugrs_with_2plus_extension_op_definitions": 0}
+             "hugrs_with_2plus_extension_op_definitions": 0,
+             "size_boundary_programs": sum(1 for c in cases if "big" in c or "bigprog" in c),
+             "hugrs_with_a_node_of_17plus_ports": 0, "hugrs_with_a_node_of_17plus_children": 0,
+             "max_ports_in_one_direction": 0, "max_children": 0, "max_depth": 0, "max_links_on_one_port": 0,
+             "max_name_length": 0}
 
         def infos(t):
             yield t["info"]
@@ -440,6 +669,12 @@ class C20(fw.Prop):
             if "view" not in o:
                 continue
             d["hugrs_with_2plus_extension_op_definitions"] += len({i["nq"] for i in infos(o["view"]["tree"]) if i["nq"] != i["nu"]}) >= 2
+            sz = sizes_of(o["view"])
+            d["hugrs_with_a_node_of_17plus_ports"] += sz["ports"] > 16
+            d["hugrs_with_a_node_of_17plus_children"] += sz["children"] > 16
+            for k1, k2 in (("ports", "max_ports_in_one_direction"), ("children", "max_children"), ("depth", "max_depth"),
+                           ("fan", "max_links_on_one_port"), ("name", "max_name_length")):
+                d[k2] = max(d[k2], sz[k1])
             d["nodes"].append(len(o["view"]["nodes"]))
             for l in o["view"]["links"]:
                 d["links_by_kind"][l[4][0]] = d["links_by_kind"].get(l[4][0], 0) + 1
@@ -732,6 +967,192 @@ def shrink_ext_program(p):
             b = p["body"][:cut]
             ok = defined(b, set(range(len(p["ins"]))))
             yield {"ins": p["ins"], "body": b, "outs": [w for w in p["outs"] if w in ok]}
+
+# ----------------------------------------------------------------------------- size boundaries (seeded round 3)
+# "one cell per input and output port", "one node statement per HUGR node", "one edge statement per link" hold for every
+# count: programs (as data) whose HUGRs have nodes with 17..257 ports in either direction (Input, Output, MakeTuple,
+# UnpackTuple, DFG, Custom, Conditional, Case, Call, FuncDefn bodies, Tag, DataflowBlock successors), containers with
+# up to 1100 children (node indices of 2-4 digits), one port carrying many links, nesting 17..65 deep, operation names,
+# metadata keys/values and type labels hundreds of characters long.
+
+BOUNDS = [15, 16, 17, 18, 31, 32, 33, 34, 63, 64, 65, 66, 99, 100, 101, 127, 128, 129, 130, 255, 256, 257]
+BIG_FORMS = ["tuple", "custom", "nested", "cond", "call", "tag", "cfg", "children", "deep", "names"]
+
+
+def _bound(rng, heavy, cap=None):
+    """a port/child count around a power of two (or of ten); small ones are much more likely in the quick tier"""
+    if rng.random() < 0.25:
+        v = rng.randint(10, 48)
+    else:
+        pool = [b for b in BOUNDS if (heavy or b <= 130)]
+        v = rng.choices(pool, [1.0 / b for b in pool])[0]
+    return min(v, cap) if cap else v
+
+
+def gen_big_program(rng, heavy=False):
+    form = rng.choice(BIG_FORMS)
+    tys_ = "".join(rng.choice("BBQUP") for _ in range(rng.randint(1, 4)))
+    if form == "tuple":
+        w = _bound(rng, heavy)
+        return {"form": form, "w": w, "tys": tys_, "rot": rng.randrange(w)}
+    if form in ("custom", "nested", "call"):
+        a, b = _bound(rng, heavy), _bound(rng, heavy)
+        if rng.random() < 0.3:
+            a, b = rng.choice([(a, rng.randint(0, 3)), (rng.randint(0, 3), b)])
+        return {"form": form, "w": a, "w2": b, "tys": tys_}
+    if form in ("cond", "tag"):
+        return {"form": form, "w": _bound(rng, heavy), "tys": tys_}
+    if form == "cfg":
+        return {"form": form, "n": _bound(rng, heavy, 66)}
+    if form == "children":
+        n = _bound(rng, heavy)
+        if heavy and rng.random() < 0.15:
+            n = rng.choice([999, 1000, 1001, 1100])
+        return {"form": form, "n": n, "fan": rng.random() < 0.5}
+    if form == "deep":
+        return {"form": form, "d": _bound(rng, heavy, 66)}
+    L = rng.choice([63, 64, 65, 255, 256, 257] + ([1023, 1024, 1025] if heavy else []))
+    return {"form": "names", "L": L, "K": _bound(rng, heavy, 130), "V": rng.choice([80, 255, 256, 257, 600])}
+
+
+def _text(n, salt=0):
+    """n characters, no two neighbouring windows alike (so that a truncated or folded string shows)"""
+    alphabet = "abcdefghijklmnopqrstuvwxyzABCDEFGHIJKLMNOPQRSTUVWXYZ0123456789_.\u00fc"
+    return "".join(alphabet[(i * 7 + i // 11 + salt) % len(alphabet)] for i in range(n))
+
+
+def run_big_program(p):
+    from hugr import ops, tys
+    from hugr.build import Cfg, Dfg, Module
+    from hugr.std.logic import Not
+    tymap = {"B": tys.Bool, "Q": tys.Qubit, "U": tys.Unit, "P": tys.Tuple(tys.Bool, tys.Unit)}
+
+    def row(n):
+        pat = p.get("tys") or "B"
+        return [tymap[pat[i % len(pat)]] for i in range(n)]
+
+    def wide_op(a, b):
+        return ops.Custom("wide", tys.FunctionType(row(a), row(b)), extension="verif.ext")
+    form = p["form"]
+    if form == "tuple":
+        w = p["w"]
+        d = Dfg(*row(w))
+        t = d.add_op(ops.MakeTuple(), *d.inputs())
+        u = d.add_op(ops.UnpackTuple(), t)
+        k = p.get("rot", 0) % max(w, 1)
+        # rotated only when all wires have one type (the row of the outputs is not compared, but keep it well typed)
+        order = list(range(w))
+        if len(set(p.get("tys") or "B")) == 1:
+            order = order[k:] + order[:k]
+        d.set_outputs(*[u[i] for i in order])
+        return d.hugr
+    if form == "custom":
+        d = Dfg(*row(p["w"]))
+        n = d.add_op(wide_op(p["w"], p["w2"]), *d.inputs())
+        d.set_outputs(*[n[i] for i in range(p["w2"])])
+        return d.hugr
+    if form == "nested":
+        d = Dfg(*row(p["w"]))
+        with d.add_nested(*d.inputs()) as inner:
+            n = inner.add_op(wide_op(p["w"], p["w2"]), *inner.inputs())
+            inner.set_outputs(*[n[i] for i in range(p["w2"])])
+        d.set_outputs(*[inner.parent_node.out(i) for i in range(p["w2"])])
+        return d.hugr
+    if form == "cond":
+        d = Dfg(tys.Bool, *row(p["w"]))
+        c, *rest = d.inputs()
+        with d.add_conditional(c, *rest) as cb:
+            for i in range(2):
+                with cb.add_case(i) as cc:
+                    cc.set_outputs(*cc.inputs())
+        d.set_outputs(*[cb.parent_node.out(i) for i in range(p["w"])])
+        return d.hugr
+    if form == "call":
+        m = Module()
+        f = m.define_function("wide_fn", row(p["w"]), row(p["w2"]))
+        n = f.add_op(wide_op(p["w"], p["w2"]), *f.inputs())
+        f.set_outputs(*[n[i] for i in range(p["w2"])])
+        g = m.define_function("main", row(p["w"]), row(p["w2"]))
+        c = g.call(f.parent_node, *g.inputs())
+        g.set_outputs(*[c[i] for i in range(p["w2"])])
+        return m.hugr
+    if form == "tag":
+        d = Dfg(*row(p["w"]))
+        t = d.add_op(ops.Tag(1, tys.Sum([[tys.Bool], row(p["w"])])), *d.inputs())
+        d.set_outputs(t)
+        return d.hugr
+    if form == "cfg":
+        n = p["n"]
+        c = Cfg(tys.Bool)
+        e = c.add_entry()
+        t = e.add_op(ops.Tag(n - 1, tys.Sum([[] for _ in range(n)])))
+        e.set_block_outputs(t, *e.inputs())
+        for i in range(n):
+            b = c.add_successor(e[i])
+            b.set_single_succ_outputs(*b.inputs())
+            c.branch_exit(b[0])                      # n control-flow links into the one port of the exit block
+        return c.hugr
+    if form == "children":
+        d = Dfg(tys.Bool)
+        (x,) = d.inputs()
+        outs = []
+        for i in range(p["n"]):
+            nd = d.add_op(Not, x)
+            if p.get("fan"):
+                outs.append(nd[0])               # n links leave the one output port of the Input node
+            else:
+                x = nd[0]
+        d.set_outputs(*(outs if p.get("fan") else [x]))
+        return d.hugr
+    if form == "deep":
+        d = Dfg(tys.Bool)
+        (x,) = d.inputs()
+        stack = [d]
+        for i in range(p["d"]):
+            inner = stack[-1].add_nested(x)
+            (x,) = inner.inputs()
+            stack.append(inner)
+        x = stack[-1].add_op(Not, x)[0]
+        while len(stack) > 1:
+            inner = stack.pop()
+            inner.set_outputs(x)
+            x = inner.parent_node.out(0)
+        d.set_outputs(x)
+        return d.hugr
+    if form == "names":
+        d = Dfg(tys.Bool)
+        (x,) = d.inputs()
+        md = {_text(3 + (i * 5) % 40, i): i for i in range(p["K"])}
+        md[_text(p["L"], 3)] = _text(p["V"], 5)
+        op = ops.Custom(_text(p["L"], 0), tys.FunctionType([tys.Bool], [tys.Bool]), extension=_text(p["L"] // 2, 1))
+        n = d.add_op(op, x, metadata=md)
+        n2 = d.add_op(ops.Custom(_text(p["L"] - 1, 0), tys.FunctionType([tys.Bool], [tys.Bool]), extension="verif.ext"), n[0],
+                      metadata={"k": _text(p["V"] + 1, 9)})
+        d.set_outputs(n2[0])
+        return d.hugr
+    raise ValueError(form)
+
+
+def shrink_big_program(p):
+    """smaller counts: first just past the nearest smaller boundary, then halves and predecessors"""
+    for key in ("w", "w2", "n", "d", "L", "K", "V"):
+        v = p.get(key)
+        if not isinstance(v, int) or v <= 0:
+            continue
+        cands = [b for b in (1, 2, 9, 10, 11, 17, 33, 65, 101, 129, 257) if b < v] + [v // 2, v - 1]
+        seen = set()
+        for c in cands:
+            if c in seen or c >= v or c < (1 if key in ("n", "d", "L") else 0):
+                continue
+            seen.add(c)
+            q = {**p, key: c}
+            if "rot" in q:
+                q["rot"] = 0
+            yield q
+    if p.get("tys") not in (None, "B"):
+        yield {**p, "tys": "B"}
+    if p.get("fan"):
+        yield {**p, "fan": False}
 
 
 def mutate(h, rng, k):
